@@ -29,7 +29,8 @@ func checkExternal(v map[string]any, p tree.Path) error {
 	if !ok {
 		return nil
 	}
-	if !b.(bool) {
+	if external, isBool := b.(bool); !isBool || !external {
+		// a string is accepted by the schema when interpolation is skipped; it is converted while decoding
 		return nil
 	}
 
